@@ -142,6 +142,10 @@ def run_case(w, c):
             decimalfp.set_dflt_rounding_mode(ROUNDING[c['mode']])
             try:
                 r = w.mk_rate(c['r'])
+                if c.get('via') == 'inv':
+                    r = r.inverted()
+                elif c.get('via') == 'inv2':
+                    r = r.inverted().inverted()
                 ev['r'] = proj_rate(r)
                 a = Fraction(c['an'], c['ad'])
                 m = w.Money(mk_amount([c['an'], c['ad']], c.get('rep', 'dec')), w.cur[c['cur']])
@@ -176,6 +180,10 @@ def run_case(w, c):
             try:
                 if f == 'convert':
                     res = a.convert(w.cur[c['c2']])
+                elif f == 'parse':
+                    # text naming one currency, unit argument naming the other: a conversion like any other
+                    res = w.Money('%s %s' % (Fraction(*c['a']).numerator if Fraction(*c['a']).denominator == 1
+                                             else format(mk_amount(c['a'], 'dec'), 'f'), c['c1']), w.cur[c['c2']])
                 else:
                     res = {'add': operator.add, 'sub': operator.sub, 'div': operator.truediv, 'mul': operator.mul,
                            'lt': operator.lt, 'le': operator.le, 'gt': operator.gt, 'ge': operator.ge,
@@ -186,7 +194,7 @@ def run_case(w, c):
                     o.update(st='bool', b=res, exact=(want is None or res == want))
                 elif isinstance(res, Quantity):
                     q = Fraction(res.unit.smallest_fraction)
-                    want = {'add': fa + fb, 'sub': fa - fb, 'convert': fa}.get(f)
+                    want = {'add': fa + fb, 'sub': fa - fb, 'convert': fa, 'parse': fa}.get(f)
                     o.update(st='ok', t=type(res).__name__, cur=res.unit.symbol,
                              ongrid=(Fraction(res.amount) / q).denominator == 1,
                              exact=(want is not None and Fraction(res.amount) == want))
